@@ -4,6 +4,7 @@ import hashlib
 import json
 import os
 
+from .chooser import derive_seed
 from stepup.core import api as su_api
 from stepup.core.enums import Need
 from stepup.core.exceptions import UsageError
@@ -62,8 +63,30 @@ class Interp:
 
     # ------------------------------------------------------------------------------------
     def run_ops(self, ops, env):
-        for op in ops:
+        for i, op in enumerate(ops):
+            if op and op[0] == "sleep":
+                self._partial_outputs(ops[i + 1 :], env)
             self.run_op(op, env)
+
+    def _partial_outputs(self, later_ops, env):
+        """A program that works for a while may create its output files early and complete
+        them at the end: one declared output in three exists with provisional content while
+        the step sleeps.  Whoever reads it in that window did not read the final file."""
+        full_env = {**self.base_env, **env}
+        for op in later_ops:
+            if not op or op[0] != "write":
+                continue
+            path = _subst(op, full_env)[1]
+            rel = self.fs.rel(path)
+            if derive_seed("partial", self.proc.label, rel) % 3:
+                continue
+            d = os.path.dirname(path)
+            if d and not os.path.isdir(d):
+                continue
+            if os.path.isdir(path):
+                continue
+            self.fs.write(self.actor, path, f"partial:{rel}\n")
+            self.proc.world.count("step.partial_output_written_early")
 
     def api_call(self, name, func, *args, **kwargs):
         try:
@@ -131,6 +154,12 @@ class Interp:
             self.api_call(("amend_inp", op[1]), su_api.amend, inp=[op[1]])
             data, d = self.fs.read(self.actor, op[1])
             proc.reads.append([self.fs.rel(op[1]), d])
+        elif name == "areadt":
+            # one amend() call for an ordinary input and a file of a static tree
+            self.api_call(("amend_inp", op[1], op[2]), su_api.amend, inp=[op[1], op[2]])
+            for q in (op[1], op[2]):
+                data, d = self.fs.read(self.actor, q)
+                proc.reads.append([self.fs.rel(q), d])
         elif name == "reada":
             # late amend: read first (tolerating absence), announce afterwards
             if os.path.isfile(op[1]):
